@@ -112,7 +112,16 @@ def c_bit(unit):
     return {"fired": fired, "good_silent": good, "detail": [x.msg[:160] for x in (out["bitbad"][0][:1] + out["bitbad"][1][:1])]}
 
 
+def c_pan7(unit):
+    import engine_pan
+    r = engine_pan.pan7(_ctx(unit), unit=unit, only=["pan7_"])
+    bad = [x for x in r.reports if "pan7_bad" in x.fn]
+    good = [x for x in r.reports if "pan7_good" in x.fn]
+    seen = [i for i in r.instances if "pan7_good" in i["what"]]
+    return {"fired": bool(bad), "good_silent": not good and bool(seen), "detail": [x.msg[:140] for x in bad[:1]]}
+
+
 CONTROLS = {
     "PUR-1": c_pur1, "PUR-2": c_pur2, "PUR-3": c_pur3, "PAN-1": c_pan1, "CLI-1": c_cli1, "ERR-1": c_err1,
-    "FLW-guard": c_flw_guard, "SYN-1": c_syn1, "PAN-3": c_pan3, "BIT": c_bit,
+    "FLW-guard": c_flw_guard, "SYN-1": c_syn1, "PAN-3": c_pan3, "BIT": c_bit, "PAN-7": c_pan7,
 }
